@@ -80,6 +80,14 @@ func (d *mdest) record(lvl int, p []byte) (int, error) {
 	}
 	switch d.r.outcome[d.id-1] {
 	case "err":
+		// "returns an error": with whatever count - nothing, a part, or (bytes went out, then a flush or an acknowledgement
+		// failed) everything. It is the error that makes it a failure
+		switch (eventNo(p) + d.id) % 3 {
+		case 1:
+			return len(p), d.err
+		case 2:
+			return len(p) / 2, d.err
+		}
 		return 0, d.err
 	case "short":
 		if len(p) > 0 {
